@@ -177,16 +177,19 @@ def run(ck, w):
         good = False
         ck.fail(o, bk.name, "callback not invoked", "no call of options.change_callback for returned changes")
     else:
-        arg = flow.origins_x(lib, bk, calls[0].args[1]) if len(calls[0].args) > 1 else set()
-        if "backup::BackupWriter::copy_entry" not in flow.origin_calls(arg):
+        args_ = [flow.origins_x(lib, bk, c_.args[1]) if len(c_.args) > 1 else set() for c_ in calls]
+        if not any("backup::BackupWriter::copy_entry" in flow.origin_calls(a_) for a_ in args_):
             good = False
-            ck.fail(o, bk.name, "callback argument is not the returned change", "argument from %s" % flow.origin_summary(arg), calls[0].site())
+            ck.fail(o, bk.name, "callback argument is not the returned change", "arguments from %s" % [flow.origin_summary(a_) for a_ in args_], calls[0].site())
     del_in_closure = False
     for fb in lib.family("backup::backup"):
         if events_of(lib, fb, "change::EntryChange::deleted"):
             del_in_closure = True
             a = flow.origins_x(lib, fb, events_of(lib, fb, "change::EntryChange::deleted")[0].args[0])
-            if not any("basis_entry" in str(x) or (x[0] == "call" and x[1].endswith("into_options") and x[3][:1] == ("0",)) for x in a):
+            # the basis side of the merged pair: the local named basis_entry, or the first component of what
+            # MatchedEntries::into_options / MergeTrees::next delivered
+            if not any("basis_entry" in str(x) or (x[0] == "call" and (x[1].endswith("into_options") or x[1].startswith("merge::MergeTrees::next")))
+                       for x in a):
                 good = False
                 ck.fail(o, fb.name, "deleted() not on the basis entry", "argument from %s" % flow.origin_summary(a))
     if not del_in_closure:
@@ -226,7 +229,21 @@ def run(ck, w):
     elif not reporters:
         ck.fail(o, bk.name, "deletions not passed to the callback", "no invocation of the change callback with EntryChange::deleted")
     else:
-        skipped = [a for a in arm_entries if any(h in bk.reachable(a, removed_nodes=reporters) for h in heads)]
+        # not having a callback at all is the one legitimate way round: the None edge of a test of options.change_callback
+        no_cb_edges = set()
+        for bb_ in sorted(bk.live):
+            t_ = bk.blocks[bb_]["term"]
+            if t_["tk"] != "switch":
+                continue
+            dl_ = flow.operand_local(t_["discr"])
+            for st_ in reversed(bk.blocks[bb_]["stmts"]):
+                if st_["sk"] == "assign" and st_["pl"]["l"] == dl_ and st_["rv"]["rk"] == "discr":
+                    oo_ = flow.origins_x(lib, bk, {"k": "copy", "pl": st_["rv"]["pl"]}, through_calls=[r"Option::<T>::as_ref$"])
+                    if any(x[0] in ("param", "upvar") and "change_callback" in x[2] for x in oo_):
+                        arms_ = {int(a[0]): a[1] for a in t_["arms"]}
+                        no_cb_edges.add((bb_, arms_[0] if 0 in arms_ else t_["otherwise"]))
+                    break
+        skipped = [a for a in arm_entries if any(h in bk.reachable(a, removed_nodes=reporters, removed_edges=no_cb_edges) for h in heads)]
         if skipped:
             ck.fail(o, bk.name, "a deleted entry can go unreported",
                     "from the arm without a source entry the next merged entry can be taken without invoking the callback: %s" %
